@@ -43,7 +43,16 @@ def floors(tier):
 
 
 def nested_value(rng):
-    return rng.choice(([[1, 2], [3]], {"a": [1], "b": {"c": [2]}}, [{"k": [0]}]))
+    import collections
+
+    import numpy as np
+
+    return rng.choice((
+        lambda: [[1, 2], [3]], lambda: {"a": [1], "b": {"c": [2]}}, lambda: [{"k": [0]}],
+        # mutable values that are not plain list / dict / set at the top level
+        lambda: ([1, 2], {"k": [0]}), lambda: collections.deque([[1], [2]]), lambda: np.array([1.0, 2.0, 3.0]),
+        lambda: {"arr": np.zeros(2), "t": ([0],)}, lambda: collections.OrderedDict(a=[1]), lambda: bytearray(b"ab"),
+    ))()
 
 
 def build_source(rng, cls):
@@ -98,16 +107,26 @@ def derive(X, how):
 
 def mutate_nested(val, rng):
     """Append to the innermost list reachable from val."""
+    import collections
+
+    import numpy as np
+
     v = val
     for _ in range(6):
-        if isinstance(v, list) and v and isinstance(v[0], (list, dict)):
+        if isinstance(v, (list, tuple, collections.deque)) and len(v) and isinstance(v[0], (list, dict, tuple, np.ndarray)):
             v = v[0]
         elif isinstance(v, dict):
             v = v[sorted(v)[-1]]
         else:
             break
-    if isinstance(v, list):
+    if isinstance(v, (list, collections.deque)):
         v.append(("mutated", rng.randint(0, 9)))
+        return True
+    if isinstance(v, np.ndarray) and v.size:
+        v[0] += 1.5
+        return True
+    if isinstance(v, bytearray):
+        v.append(rng.randint(65, 90))
         return True
     return False
 
